@@ -200,3 +200,23 @@ def rel_err(got, exp):
     d = float((got - exp).norm())
     n = float(exp.norm())
     return d / n if n > 0 else (0.0 if d == 0 else float('inf'))
+
+
+def call_case(res, fn, *args, case=None, **kw):
+    """Run one case; an exception raised from inside the code under test during a valid use is a violation
+    candidate (the guarantee was not delivered); anything else is a harness problem and propagates (inconclusive)."""
+    import traceback
+    from kverif.common import REPO
+    try:
+        return fn(*args, **kw)
+    except NonFiniteData:
+        res.skip('torch produced non-finite data for finite inputs')
+    except ConfigRejected as e:
+        res.skip('constructor rejected: ' + str(e)[:40])
+    except Exception:  # noqa: BLE001
+        tb = traceback.format_exc()
+        if (REPO.rstrip('/') + '/kfac/') not in tb:
+            raise
+        ls = tb.strip().splitlines()
+        fi = max([i for i, l in enumerate(ls) if l.startswith('  File ')] or [0])
+        res.violation('a valid use raised inside kfac: ' + ' | '.join(x.strip() for x in ls[fi:fi + 4]), case if case is not None else dict(args=[a for a in args if isinstance(a, (int, str))]))
